@@ -135,9 +135,8 @@ pub fn with_regions<R>(f: impl FnOnce(&[Region; 4]) -> R) -> R {
 }
 
 /// Self-test used by the checks at start-up: the guard pages must really be
-/// inaccessible (checked with `mincore`-free probing via `madvise` being
-/// unavailable for PROT_NONE is not portable, so this simply checks the
-/// protection flags through /proc/self/maps).
+/// inaccessible. Checked through the protection flags in /proc/self/maps
+/// (touching them would kill the process).
 pub fn guards_effective() -> bool {
     let r = Region::new(1);
     let Ok(maps) = std::fs::read_to_string("/proc/self/maps") else {
